@@ -19,7 +19,7 @@ ASSUMPTIONS = ["difflib is excluded from the exact clause (b): it may pick a non
                "repeated substrings; the statement demands only monotone/in-range of it",
                "forced alignment relies on the inserted characters not occurring in the plain alphabet (asserted per case)"]
 FLOORS = {"quick": {"nosrc_cases": 3000, "nosrc_annotations_checked": 4000, "forced_cases": 5000,
-                    "forced_annotations": 5000, "periodic_cases": 1500, "adjacent_left": 500, "adjacent_right": 500,
+                    "forced_annotations": 5000, "periodic_cases": 1500, "same_plain_other_source": 1500, "adjacent_left": 500, "adjacent_right": 500,
                     "touching_pairs": 300, "updater_pairs:dmp": 1500, "updater_pairs:difflib": 1500,
                     "updater_offsets_swept": 100000, "multi_range_pairs": 2000},
           "thorough": {"nosrc_cases": 150000, "forced_cases": 300000, "adjacent_left": 30000,
@@ -104,6 +104,7 @@ def forced(rng, rec):
     rec.ev()
     rec.count("forced_cases")
     rec.count("forced_annotations", len(sp))
+    second = A.relocate_one_insert(rng, p, s, pos) if rng.random() < 0.5 else None
     exp, last = [], 0
     for i, (a, b) in enumerate(sp):
         sa, sb = pos[a], pos[b - 1] + 1
@@ -118,6 +119,25 @@ def forced(rng, rec):
     exp = "".join(exp) + s[last:]
     if out != exp:
         rec.violation("C10.forced_alignment", case, observed=out[:400], expected=exp[:400])
+    if second is not None:
+        # history: the same plain text is annotated onto another source of the same length right afterwards
+        s2, pos2 = second
+        try:
+            out2 = annotate_citations(p, anns, source_text=s2)
+        except Exception as e:
+            rec.count("raised:" + type(e).__name__)
+            out2 = None
+        if out2 is not None:
+            rec.count("same_plain_other_source")
+            exp2, last2 = [], 0
+            for i, (a, b) in enumerate(sp):
+                sa, sb = pos2[a], pos2[b - 1] + 1
+                exp2.append(s2[last2:sa] + f"«{i}»" + s2[sa:sb] + f"«/{i}»")
+                last2 = sb
+            exp2 = "".join(exp2) + s2[last2:]
+            if out2 != exp2:
+                rec.violation("C10.forced_alignment_after_other_source", dict(case, source2=s2),
+                              observed=out2[:400], expected=exp2[:400])
     if sp:
         rec.nontrivial(["forced", p, s, sp])
     if len(rec.samples) < 2 and len(sp) >= 2:
